@@ -208,8 +208,16 @@ var _ = errors.New
 // on long streams; here the same bufio.Scanner logic runs with a 16-byte buffer).
 func vhSmallBufStream() []byte {
 	var s []byte
-	s = append(s, "id:i7\nevent:ty\n\n"...)
 	n := 1 + verifChoose("more", 2)
+	if verifChoose("shape", 2) == 0 {
+		// the first event fills the 16-byte buffer exactly
+		s = append(s, "id:i7\nevent:ty\n\n"...)
+	} else {
+		// a 7-byte event followed by 8-byte ones: a read that fills the buffer stops
+		// in the middle of a line while complete events are buffered in front of it
+		s = append(s, "id:i7\n\n"...)
+		n++
+	}
 	for i := 0; i < n; i++ {
 		s = append(s, "data:"...)
 		s = append(s, verifNondetBytes("datahole", 1)...)
